@@ -505,6 +505,8 @@ def case(ctx, case):
         hook_after_backward(model, mon, "SymNCO loss")
     elif kind == "ppo":
         pol = big()
+        if case.get("sched"):
+            kw.update(lr_scheduler="MultiStepLR", lr_scheduler_kwargs=dict(milestones=[1], gamma=0.5))
         model = M.PPO(env, pol, mini_batch_size=case.get("mb", 3), ppo_epochs=2, normalize_adv=case.get("norm_adv", False), **kw)
         hook_ppo(model, mon)
     else:
